@@ -247,6 +247,27 @@ func runC11(c *report.Ctx) {
 			for si, st := range an.Stores(m, gateT, pf) {
 				key := sprintf("%s/store-%s-%d", an.FuncName(m), pf, si)
 				kind, reason := classifyGateStore(st, pf)
+				if kind == "away" && pf != "canceled" {
+					// the "cannot satisfy" arguments for arrived/count rest on the invariant arrived <= count, which
+					// holds on entry (under the lock) but not after this very method has stored the OTHER field
+					other := "count"
+					if pf == "count" {
+						other = "arrived"
+					}
+					isOther := map[ssa.Instruction]bool{}
+					for _, o := range an.Stores(m, gateT, other) {
+						isOther[o] = true
+					}
+					ordO := an.NewOrder(m, func(in ssa.Instruction) uint64 {
+						if isOther[in] {
+							return 1
+						}
+						return 0
+					})
+					if _, may := ordO.Before(st); may&1 != 0 {
+						kind, reason = "may-satisfy", "the method has already stored "+other+", so arrived <= count may not hold here and this store can make arrived == count true"
+					}
+				}
 				switch kind {
 				case "away":
 					c.Check("R-SIGNAL", key, "a store to a wait-predicate field that cannot make 'arrived == count || canceled' become true needs no wake-up: "+reason, true, an.InstrPos(st), 1, "%s", reason)
@@ -357,6 +378,30 @@ func runC11(c *report.Ctx) {
 			for _, f := range []string{"err", "count"} {
 				n := len(an.Stores(m, gateT, f))
 				c.Check("R-NOEFFECT", an.FuncName(m)+"/rearm-keeps-"+f, "re-arming does not touch "+f, n == 0, fpos(m), 1, "%d stores", n)
+			}
+		}
+		if m.Name() == "Clear" {
+			// Clear brings the latch back to its initial state on every path: each state field is stored
+			// unconditionally (arrived = 0, canceled = false, err = nil, count = the constructor's count)
+			for _, f := range []string{"arrived", "canceled", "err", "count"} {
+				sts := an.Stores(m, gateT, f)
+				isSt := map[ssa.Instruction]bool{}
+				for _, st := range sts {
+					isSt[st] = true
+				}
+				ord := an.NewOrder(m, func(in ssa.Instruction) uint64 {
+					if isSt[in] {
+						return 1
+					}
+					return 0
+				})
+				okU := len(sts) >= 1
+				for _, e := range an.Exits(m) {
+					if must, _ := ord.Before(e.Ret); must&1 == 0 {
+						okU = false
+					}
+				}
+				c.Check("R-RESET", an.FuncName(m)+"/unconditional-"+f, "Clear re-initialises "+f+" on every path (whatever state the latch was in, cancelled or not)", okU, fpos(m), len(sts), "%d stores; on every path to every exit: %v", len(sts), okU)
 			}
 		}
 		if m.Name() == "CancelWithError" {
